@@ -212,6 +212,31 @@ def extra_checks(rng, tier, g_, info):
                     "an interrupted run (exit status %s) left output behind: %s" % (det.get("status"), canon[:80]))
                 return
     info["cli_crash_points"] = q
+    # output LENGTH equal to a size literal of the source (a buffer / chunk size), exactly and twice: the passphrase is
+    # padded until the rendered report has that many characters; printed and saved, the text is still the API result
+    import check as _check
+    sizes = sorted(v for v in set(_check.source_literals("C20") + _check.source_literals("C06")) if 512 <= v <= 2 ** 18)
+    z = 0
+    mn_ = "legal winner thank year wave sausage worth useful legal winner thank yellow"
+    for size in sizes[:6]:
+        for mult in (1, 2):
+            target = size * mult
+            base_argv = ["--interval", "0", "%d" % max(1, target // 900), "from-mnemonic", mn_, "--password", "p"]
+            canon0, det0 = impl.cli_run("absent", bytes(40), base_argv)
+            len0 = len(det0.get("stdout") or "")
+            if not len0 or len0 > target:
+                continue
+            pad = target - len0
+            argv = base_argv[:-1] + ["p" + "a" * pad]
+            for av, fsk in ((argv, "absent"), (["--file", "@F"] + argv, "absent")):
+                line = "cli %s %s %s" % (fsk, hx(bytes(40)), enc(av))
+                out = impl.run(line)
+                z += 1
+                msg = oracle(line, out)
+                if msg:
+                    yield line, "report of exactly %d characters (%d x the source literal %d): %s" % (target, mult, size, msg)
+                    return
+    info["exact_output_sizes"] = z
     # environment variants of the REAL program (subprocess): stdio encoding, locale, hash seed, optimisation — with
     # ASCII and non-ASCII secrets.  Exit status 0 => stdout is the API result; otherwise stdout carries no wallet data.
     envs = [{"PYTHONIOENCODING": "ascii"}, {"PYTHONIOENCODING": "latin-1"}, {"LC_ALL": "C", "LANG": "C", "PYTHONUTF8": "0"},
@@ -342,6 +367,8 @@ def oracle(line, out):
         return "CLI run could not be canonicalised"
     if v.startswith(("overwrote", "unexpected-files", "nonzero-status", "file-and-stdout", "existing-sibling")):
         return "CLI broke the output contract: %s" % v[:120]
+    if v.startswith("zero-status-output-not-json"):
+        return "exit status 0, but what was printed / saved is not a JSON document (it begins %r)" % unstr(v.split(" ")[1])[:60]
     if v in ("reject", "help"):
         # non-zero status, nothing on stdout (beyond usage text), no file: the first alternative of the
         # property.  (The property does not oblige the CLI to accept any particular vector.)
